@@ -494,6 +494,7 @@ fn cmd_reentrant(args: &[String]) {
     install_hook(arg(args, "--out-dir").unwrap_or(""));
     let t0 = std::time::Instant::now();
     let mut st = reentrant::ReStats::default();
+    let mut tlog = arg(args, "--trace-log").map(|p| std::fs::File::create(p).expect("trace log"));
     for i in from..to {
         if replaying {
             println!("SCENARIO\t{}", reentrant::describe(seed, i));
@@ -503,7 +504,10 @@ fn cmd_reentrant(args: &[String]) {
             let mut g = CUR.lock().unwrap_or_else(|e| e.into_inner());
             g.alt = Some((format!("reentrant-{}-{}", seed, i), format!("trisim-reentrant v1\nseed {}\nindex {}\n# scenario: {}\n", seed, i, reentrant::describe(seed, i))));
         }
-        reentrant::run_case(seed, i, &mut st);
+        let d = reentrant::run_case(seed, i, &mut st);
+        if let Some(f) = tlog.as_mut() {
+            let _ = writeln!(f, "{}\t{:016x}", i, d);
+        }
     }
     if replaying {
         println!("RUN-OK\treentrant");
